@@ -69,8 +69,34 @@ func init() {
 				}
 			case "schema":
 				out[i] = guardMut(func() mutRes {
-					if _, err := avro.SchemaFromString(string(in)); err != nil {
+					s, err := avro.SchemaFromString(string(in))
+					if err != nil {
 						return mutRes{Class: "err"}
+					}
+					// decoder construction on whatever parsed: into a struct that has none of the
+					// record's fields (every field is skipped) and into one that has them
+					if s.Type == "record" {
+						type none struct {
+							X int64 `json:"no_such_field_anywhere"`
+						}
+						_, _ = s.Codec(none{})
+						var g *GT
+						func() {
+							defer func() { recover() }() // the harness's own target generator on a schema of any shape
+							g = compatTarget(rand.New(rand.NewSource(int64(len(in)))), s)
+						}()
+						if g != nil {
+							func() {
+								var rt reflect.Type
+								func() {
+									defer func() { recover() }()
+									rt = g.RType()
+								}()
+								if rt != nil && rt.Kind() == reflect.Struct {
+									_, _ = s.Codec(reflect.New(rt).Elem().Interface())
+								}
+							}()
+						}
 					}
 					return mutRes{Class: "ok"}
 				})
@@ -509,12 +535,27 @@ func runC06(r *Run) {
 		s := genSchema(r.Rng, SchemaGenCfg{MaxDepth: 1 + r.Rng.Intn(4)})
 		docs = append(docs, mutants(r, []byte(schemaJSON(s)), 40)...)
 	}
+	// slips a person makes: a complex type named by its bare string, attributes at the wrong level
+	for _, bare := range []string{"fixed", "array", "map", "record", "enum", "union", "error"} {
+		for _, shape := range []string{
+			`{"type":"record","name":"R","fields":[{"name":"a","type":"long"},{"name":"id","type":"%s","size":16},{"name":"b","type":"string"}]}`,
+			`{"type":"record","name":"R","fields":[{"name":"id","type":"%s","items":"long","values":"long","symbols":["A"]}]}`,
+			`{"type":"record","name":"R","fields":[{"name":"id","type":["null","%s"]}]}`,
+			`{"type":"record","name":"R","fields":[{"name":"id","type":{"type":"array","items":"%s"}}]}`,
+			`{"type":"record","name":"R","fields":[{"name":"id","type":{"type":"map","values":"%s"}}]}`,
+			`{"type":"record","name":"R","fields":[{"name":"in","type":{"type":"record","name":"In","fields":[{"name":"id","type":"%s"}]}}]}`,
+			`{"type":"record","name":"R","fields":[{"name":"id","type":{"type":"%s"}}]}`,
+			`{"type":"%s","name":"R"}`,
+		} {
+			docs = append(docs, []byte(fmt.Sprintf(shape, bare)))
+		}
+	}
 	for _, n := range []int{100, 3000, 10001} {
 		docs = append(docs, []byte(strings.Repeat("[", n)), []byte(strings.Repeat(`{"type":"array","items":`, n)), []byte(strings.Repeat(`{"type":"map","values":`, n)+`"int"`+strings.Repeat("}", n)))
 	}
 	for k, rr := range runBatch(mutReq{Inputs: docs, Mode: "schema"}) {
 		r.Count("schema/" + rr.Class)
-		judge(r, -1, "SchemaFromString", rr, len(docs[k]), "", map[string]any{"mode": "schema", "input": truncBytes(docs[k])})
+		judge(r, -1, "SchemaFromString, then Schema.Codec on what parsed,", rr, len(docs[k]), "", map[string]any{"mode": "schema", "input": truncBytes(docs[k])})
 	}
 	var times [][]byte
 	for _, base := range []string{"2006-01-02T13:37:42.326876123+08:21", "2006-01-02T13:37:42Z", "1970-01-01", "2006-01-02T13:37:42,5Z"} {
